@@ -570,6 +570,10 @@ def run(ctx):
     ctx.guard(_frames, ctx, py)
     ctx.guard(_standin, ctx, py)
 
+    # frame of the modules under contract (no state kept between calls, arguments left alone): same analysis as C19
+    from props import C19 as _C19
+    ctx.guard(_C19.frame_obligations, ctx, py, "C18", {'sim', 'util', 'transform'})
+
 
 def replay(obligation, cex):
     py = load()
